@@ -12,12 +12,18 @@ TEXT = {
     "C01": t("Unbounded proof (all states satisfying the lock invariant, all T, all capacities) that every critical section of every entry point conserves the logical content: a value enters by exactly one of buffer push / hand-off to the oldest waiting receiver / registration of the sender, and leaves by exactly one pop; only waiters popped under the lock by this call, with the right role, are completed, each once, none forgotten. The cross-thread hand-off itself is assumed (R2).", design_ref="DESIGN.md §6 C01"),
     "C02": t("Unbounded proof that every send-type section appends at the tail of the logical order (buffer ++ blocked senders) or hands to the oldest waiting receiver when the order is empty, every receive-type section removes the head, refill appends the oldest blocked sender's value at the buffer tail, cancel removes one entry and keeps the order of the rest.", design_ref="DESIGN.md §6 C02"),
     "C03": t("Unbounded proof that each entry point performs, per critical section, exactly one atomic step of a deterministic reference channel and re-establishes the lock invariant at every point where a guard dies; linearizability then follows from lock-based critical sections (R1), an argument over the contracts.", design_ref="DESIGN.md §6 C03"),
+    "C05": t("Unbounded proof over every path of every entry point that a value given to the channel is disposed exactly once: MaybeUninit typestate makes a second drop a failed pre-condition, a scope-exit obligation on every lent sender slot (delivered => untouched, not delivered => dropped once or handed back), Option variants: None iff success, futures: exactly one of read / drop / delivered per completed operation. Destruction of buffered values by VecDeque's own Drop is trusted to the language.", design_ref="DESIGN.md §6 C05"),
     "C08": t("Unbounded proof: queue.len() <= capacity is part of the lock invariant re-proved at every release; try_send* is refused iff the buffer is full and no receiver waits; success only by buffer place, hand-off or delivery; unbounded channels never refuse.", design_ref="DESIGN.md §6 C08"),
+    "C09": t("All contracts of C01-C05, C08, C10-C16, C18, C19 are proved for each of the four handle types (the three shared macros are expanded into every impl) and never mention the flavour of a waiter; clone_sync/clone_async have the Clone contract on the same Arc; to_*/as_* are checked to be plain transmutes (AST shape). wake's dispatch on the waiter's kind is assumed (R4).", note=RELY + " R4 (wake dispatch).", design_ref="DESIGN.md §6 C09"),
     "C10": t("Unbounded proof of the close contract (first close empties everything and terminates every waiter once, later ones fail and change nothing) and of 'closed is absorbing' on every entry point.", design_ref="DESIGN.md §6 C10"),
     "C11": t("Unbounded proof of the Drop contracts (terminate waiters exactly on the 1->0 transition while the other side lives) and of drain-before-SendClosed / ReceiveClosed-without-handing-over on every entry point.", design_ref="DESIGN.md §6 C11"),
     "C12": t("Unbounded proof of +1 / -1 / unchanged contracts on every clone, drop, constructor and close; conversions are checked to be plain transmutes (AST shape).", note="Relies on R1 and A3 (no counter overflow); T1, T11.", design_ref="DESIGN.md §6 C12"),
+    "C13": t("Unbounded proof that each timed operation ends in exactly one of success / timeout / closed with the value moved exactly once or not at all: Timeout only after a successful cancel of the caller's own entry under the lock (nothing left behind, order of the others kept) or before registration, never before the deadline (clock token), failed cancel => wait for the peer. The liveness half (timeout IS reported once the deadline passed) is excluded.", note=RELY + " T9 clock token, A4.", design_ref="DESIGN.md §6 C13"),
     "C14": t("Proof that non-blocking entry points cannot (transitively) call anything that waits for a peer, and the realtime variants nothing that waits for the lock (uninterpreted effect tokens in requires), that they terminate (decreases on every loop), never register, and report success exactly when a value moved.", design_ref="DESIGN.md §6 C14"),
+    "C15": t("Unbounded proof of the Drop contracts of both futures: Done/Zero drop cleanly, Waiting cancels under the lock (own entry removed, others keep order) or, if a peer owns the signal, waits for it and then keeps / drops the value exactly once; after the drop the wait list does not hold the future. That the peer's in-flight access has finished when the wait returns is assumed (R2/R3).", design_ref="DESIGN.md §6 C15"),
+    "C16": t("Unbounded proof of the polling contract: Pending implies the waker of this poll is registered; a possibly published signal's waker is replaced only while the lock is held and the signal was seen in the list; a future (re)starts only with a fresh signal; in Waiting completion is decided from the signal only and a value is produced only on evidence of delivery; polling a finished future is the documented panic; the stream's end is sticky.", design_ref="DESIGN.md §6 C16"),
     "C18": t("Unbounded proof that each entry point returns exactly the result of a deterministic reference function of the abstract state and leaves the reference post-state, for all states; plus panic-, overflow- and index-safety under the documented pre-conditions.", design_ref="DESIGN.md §6 C18"),
+    "C19": t("Unbounded proof of the full functional post-condition of drain_into including both loops: vec == old(vec) ++ buffer ++ payloads of all blocked senders (oldest first), count == number appended, every sender taken is released with success, one critical section, no blocking call, both loops terminate; closed => fails and takes nothing.", design_ref="DESIGN.md §6 C19"),
 }
 
 NOT_APPLICABLE = {
@@ -25,13 +31,7 @@ NOT_APPLICABLE = {
     "C07": "data-race / use-after-return freedom across threads needs happens-before reasoning over raw pointers; Verus would need permission tokens threaded through signal.rs (a rewrite = a model), Kani has no threads.",
     "C20": "auto-trait (Send/Sync) derivation is decided by the Rust type checker, not expressible as a contract; a compile-fail test would be a different technique.",
     "C04": "under construction in this round (Kani K1/K2 groups + Verus evidence-before-read obligations)",
-    "C05": "under construction in this round",
-    "C09": "under construction in this round",
-    "C13": "under construction in this round",
-    "C15": "under construction in this round",
-    "C16": "under construction in this round",
     "C17": "under construction in this round",
-    "C19": "under construction in this round",
 }
 
 NOTES = ("All checks are ./check <id>: weave the current /repo/src with the contracts in /verif/contracts, run Verus on the woven unit(s) "
